@@ -23,7 +23,7 @@ ASSUMPTIONS = ['helmert_exact (self-validated each shard)', 'Julian year = 365.2
                'uncertainty of a propagated parameter: sqrt(sd^2 + (sd_rate * dt)^2), as documented in Transformation.__add__']
 N = {'quick': 1500, 'thorough': 25000}
 SHARDS = {'quick': 16, 'thorough': 32}
-REQUIRED_COUNTERS = ['same_label_sequences', 'shipped_sets_calls', 'random_sets_calls', 'reference_epoch_cases', 'before_reference_epoch', 'leap_day_cases',
+REQUIRED_COUNTERS = ['wrapper_calls_with_covariance', 'same_label_sequences', 'shipped_sets_calls', 'random_sets_calls', 'reference_epoch_cases', 'before_reference_epoch', 'leap_day_cases',
                      'wrapper_roundtrips', 'wrapper_identity', 'negation_roundtrips', 'vcv_judged']
 D0 = datetime.date(1980, 1, 1).toordinal()
 D1 = datetime.date(2060, 12, 31).toordinal()
@@ -191,11 +191,15 @@ def judge_wrappers(ns, ctx, case):
     x, yy, z = case['xyz']
     ctx.judged()
     ctx.bucket('wrapper', ep.year // 10, ''.join('+' if c >= 0 else '-' for c in (x, yy, z)))
+    V = None if case.get('vcv') is None else np.array(case['vcv'], dtype=float)
+    kw = {} if V is None else {'vcv': V}
+    if V is not None:
+        ctx.count('wrapper_calls_with_covariance')
     try:
-        f = T.transform_atrf2014_to_gda2020(x, yy, z, ep)
-        b = T.transform_gda2020_to_atrf2014(f[0], f[1], f[2], ep)
-        f2 = T.transform_gda2020_to_atrf2014(x, yy, z, ep)
-        b2 = T.transform_atrf2014_to_gda2020(f2[0], f2[1], f2[2], ep)
+        f = T.transform_atrf2014_to_gda2020(x, yy, z, ep, **kw)
+        b = T.transform_gda2020_to_atrf2014(f[0], f[1], f[2], ep, **kw)
+        f2 = T.transform_gda2020_to_atrf2014(x, yy, z, ep, **kw)
+        b2 = T.transform_atrf2014_to_gda2020(f2[0], f2[1], f2[2], ep, **kw)
     except Exception as e:
         ctx.violation('wrappers:exception', case, {'exception': repr(e)})
         return
@@ -282,6 +286,8 @@ def run_shard(spec, ctx):
         ep, cls = rand_epoch(rnd, datetime.date(2020, 1, 1))
         case = {'wrapper': True, 'epoch': str(ep), 'xyz': c06.rand_point(rnd, 1e7) if i % 2 else
                 [rnd.uniform(-5e6, -3e6), rnd.uniform(2e6, 5e6), rnd.uniform(-4.5e6, -1e6)]}
+        if i % 3 == 0:
+            case['vcv'] = c06.rand_vcv(rnd, rnd.choice(['spd', 'zero', 'rank1', 'diag'])).tolist()
         judge_wrappers(ns, ctx, case)
 
 
